@@ -88,7 +88,10 @@ PassOOD(e) == e.policy = "pass" /\ \E v \in Used(e) : IsCat(e.frame, v) /\ \E r 
 BuildClause(e) ==
   LET fr == EffFrame(e) IN
   IF PassOOD(e) THEN "none"
-  ELSE IF e.policy = "error" /\ IncompleteRows(e) # {} THEN (IF e.status = "ValueError:incomplete_rows" THEN "none" ELSE "incomplete_rows_not_refused")
+  ELSE IF e.policy = "error" /\ IncompleteRows(e) # {} THEN
+         (IF e.status = "ValueError:incomplete_rows" THEN "none"
+          ELSE IF e.status = "ok" THEN "incomplete_rows_not_refused"
+          ELSE "exception_on_valid_input")      \* another failure (e.g. while resolving the formula) came first
   ELSE IF e.status = "ValueError:incomplete_rows" THEN "complete_data_refused"
   ELSE IF fr.n = 0 THEN "none"
   ELSE IF e.status # "ok" THEN "exception_on_valid_input"
